@@ -80,6 +80,11 @@ class Opaque:
     def __init__(self, tag): self.tag = tag
     def __repr__(self): return 'Opaque(%s)' % (self.tag,)
 
+class AddrV:
+    """integer view of a pointer (only alignment / null tests are supported)"""
+    __slots__ = ('r',)
+    def __init__(self, r): self.r = r
+
 class FnItem:
     __slots__ = ('name',)
     def __init__(self, name): self.name = name
@@ -260,8 +265,20 @@ def parse_rvalue(rhs):
         for x in split_top(m.group(2)):
             fn, op = x.split(': ', 1); names.append(fn); ops.append(parse_operand(op))
         return ('struct', strip_generics(m.group(1)), names, ops)
-    m = re.match(r'^(.*)::([A-Za-z_0-9]+)\((.*)\)$', rhs)
-    if m: return ('variant', strip_generics(m.group(1)), m.group(2), [parse_operand(x) for x in split_top(m.group(3))])
+    if rhs.endswith(')'):
+        # Path::Variant(ops) or TupleStruct::<G>(ops): find the '(' matching the final ')'
+        depth = 0; j = None
+        for i in range(len(rhs) - 1, -1, -1):
+            c = rhs[i]
+            if c == ')': depth += 1
+            elif c == '(':
+                depth -= 1
+                if depth == 0: j = i; break
+        if j:
+            head = strip_generics(rhs[:j]); args = rhs[j + 1:-1]
+            mm = re.match(r'^(.*)::([A-Za-z_0-9]+)$', head)
+            if mm: return ('variant', mm.group(1), mm.group(2), [parse_operand(x) for x in split_top(args)])
+            if re.fullmatch(r'[A-Za-z_][A-Za-z_0-9]*', head): return ('variant', '', head, [parse_operand(x) for x in split_top(args)])
     m = re.match(r'^(.*)::([A-Za-z_0-9]+)$', rhs)
     if m: return ('variant', strip_generics(m.group(1)), m.group(2), [])
     if re.fullmatch(r'[A-Za-z_][A-Za-z_0-9]*', rhs): return ('struct', rhs, [], [])
@@ -321,12 +338,28 @@ def compile_item(it):
         it.compiled = {}
     return it.compiled
 
+ZST_DEFS = None     # set by Machine: prog.closure_zst
+def _annotate(it, bb, raw):
+    if ZST_DEFS is None: return raw
+    out = []
+    for i, s in enumerate(raw):
+        if 'const ZeroSized: {closure@' in s:
+            defs = ZST_DEFS.get((it.crate, it.name, bb, i))
+            if defs:
+                k = [0]
+                def rep(m):
+                    j = k[0]; k[0] += 1
+                    return m.group(0) + ('@@DEF@@' + defs[j] if j < len(defs) else '')
+                s = re.sub(r'const ZeroSized: \{closure@[^}]*\}', rep, s)
+        out.append(s)
+    return out
+
 def block(it, bb):
     c = it.compiled
     if c is None: c = it.compiled = {}
     r = c.get(bb)
     if r is None:
-        raw = it.blocks[bb]
+        raw = _annotate(it, bb, it.blocks[bb])
         try:
             stmts = [parse_statement(s) for s in raw[:-1]]
             term = parse_terminator(raw[-1])
@@ -355,6 +388,8 @@ class Machine:
         self.models_used = set()   # contract models actually used
         self._dyn = {}; self._clo = {}
         self.split_depth = None; self.splits = []
+        global ZST_DEFS
+        ZST_DEFS = prog.closure_zst
         from . import models
         self.intrinsics = models.INTRINSICS
 
@@ -632,9 +667,14 @@ class Machine:
         if '::' in c and not c.startswith('{'): return FnItem(c)
         return Opaque(('const', c))
     def assoc_const(self, fr, ty, trait, name):
+        if trait.endswith('SizedTypeProperties'):
+            return {'ALIGN': 8, 'SIZE': 8, 'IS_ZST': False}.get(name, 8)       # layout facts: nonzero size, power-of-two alignment
         return Ref(Cell(Str('ASSOC:%s:%s' % (lastseg(ty), name))))
     def zst(self, fr, t):
         if t.startswith('{closure@'):
+            if '@@DEF@@' in t:
+                t, d = t.split('@@DEF@@', 1)
+                return Agg(t + '@@' + fr.item.name + '@@' + d, [])
             return Agg(t + '@@' + fr.item.name, [])
         return FnItem(t)
     def eval_const_item(self, fr, c, key=None):
@@ -734,7 +774,7 @@ class Machine:
             return self.binop(rv[1], a, b, ty, self.optype(fr, rv[3]))
         if k == 'variant':
             ops = [self.operand(fr, x) for x in rv[3]]
-            try: idx = self.prog.variant_index(rv[1], rv[2])
+            try: idx = self.prog.variant_index(rv[1], rv[2], fr.item.crate)
             except (KeyError, ValueError):
                 return Agg(rv[1] + '::' + rv[2] if rv[1] else rv[2], ops)
             return EnumV(lastseg(rv[1]), idx, ops)
@@ -791,11 +831,18 @@ class Machine:
             if v.size() > w: return z3.Extract(w - 1, 0, v)
             if srcty and srcty[0] == 'i': return z3.SignExt(w - v.size(), v)
             return z3.ZeroExt(w - v.size(), v)
+        if kind in ('Transmute', 'PointerExposeProvenance') and ty in INT_W and isinstance(v, Ref): return AddrV(v)
         if kind in ('PointerCoercion', 'Transmute', 'PtrToPtr', 'Subtype'): return v
         if kind == 'IntToFloat': return Opaque(('float', v))
         raise Unsupported('cast ' + kind)
 
     def binop(self, op, a, b, ty, tyb=None):
+        if isinstance(a, AddrV) or isinstance(b, AddrV):
+            # address of a live allocation: aligned and non-null (the only facts the generated checks ask for)
+            if op == 'BitAnd': return 0
+            if op == 'Eq': return False
+            if op == 'Ne': return True
+            raise Unsupported('arithmetic on a pointer address')
         if isinstance(a, EnumV): a = a.disc
         if isinstance(b, EnumV): b = b.disc
         if isinstance(a, (Ref, Agg, Opaque)) or isinstance(b, (Ref, Agg, Opaque)):
@@ -1000,6 +1047,10 @@ class Machine:
         parts = clo_v.name.split('@@'); loc, creator = parts[0], parts[1]
         cands = None
         if len(parts) > 2:
+            last = parts[2].rsplit('::', 1)[-1]
+            for cr in [fr.item.crate] + [c for c in self.prog.crates if c != fr.item.crate]:
+                if (cr, creator + '::' + last) in items: cands = [(cr, creator + '::' + last)]; break
+        if not cands and len(parts) > 2:
             for cr in [fr.item.crate] + [c for c in self.prog.crates if c != fr.item.crate]:
                 if (cr, parts[2]) in items: cands = [(cr, parts[2])]; break
         if not cands:
